@@ -175,15 +175,64 @@ def r04c(ctx, P):
             cal = callee_of(t)
             if cal == MATCHES and not p.startswith("searchlite_core::api::reader::QueryEvaluator"):
                 inst.append((f, b, t, "matches"))
-            elif cal == GET_DOC or (cal in P.fns and P.fns[cal].crate == "searchlite_core" and cal != GET_DOC and
-                                    f.file.endswith("index/mod.rs") and GET_DOC in P.reach(cal) and P.fns[cal].vis != "Public"):
-                # the read-back of a stored document in compaction: directly, or through a private helper of index/mod.rs
-                root = f
-                while root.kind == "closure" and root.parent and P.fn(root.parent):
-                    root = P.fn(root.parent)
-                if root.path == N.INDEX + "::compact":
-                    inst.append((f, b, t, "get_doc(compaction)"))
+    # the read-back of stored documents in compaction: on every call path from Index::compact down to SegmentReader::get_doc (through
+    # closures and private helpers of its file) some call site is guarded by is_deleted on the document id it passes on
+    from sa.rules.common import compaction_chain
+    comp = P.fn(N.INDEX + "::compact")
+    chain, helpers = compaction_chain(P, comp) if comp is not None else ([], [])
+    hp = {h.path for h in helpers}
+
+    def site_guard(f, b, t):
+        use = Site(f, b)
+        g = deleted_guard(P, f, use, t["args"][1]) if len(t["args"]) > 1 else None
+        if g is None and f.kind == "closure":
+            from sa.rules.common import adapter_calls_with_closure, chain_filters, filter_drops_deleted
+            for (par, ab, at) in adapter_calls_with_closure(P, f):
+                for (kind, fb, clos) in chain_filters(P, par, at["args"][0]):
+                    if kind == "filter" and any(filter_drops_deleted(P, h) for h in clos):
+                        g = Site(par, fb)
+        if g is None and len(t["args"]) > 1:
+            g = _prefiltered_list_guard(P, f, t["args"][1])
+        return g
+    memo = {}
+
+    def fn_guarded(h, depth=0):
+        """every get_doc-reaching site of h (closures included) is guarded, here or further down"""
+        if h.path in memo:
+            return memo[h.path]
+        memo[h.path] = False
+        res = True
+        for (f2, b2, t2, direct) in chain:
+            root = f2
+            while root.kind == "closure" and root.parent and P.fn(root.parent):
+                root = P.fn(root.parent)
+            if root.path != h.path:
+                continue
+            if site_guard(f2, b2, t2) is not None:
+                continue
+            if not direct and depth < 4 and fn_guarded(P.fns[callee_of(t2)], depth + 1):
+                continue
+            res = False
+        memo[h.path] = res
+        return res
+    for (f2, b2, t2, direct) in chain:
+        root = f2
+        while root.kind == "closure" and root.parent and P.fn(root.parent):
+            root = P.fn(root.parent)
+        if comp is None or root.path != comp.path:
+            continue
+        ctx.saw(f2)
+        g = site_guard(f2, b2, t2)
+        ok = g is not None or (not direct and fn_guarded(P.fns[callee_of(t2)]))
+        use = Site(f2, b2)
+        inst.append((f2, b2, t2, None))
+        ctx.ob(rid, "%s:%s:%s" % (rid, f2.short, "get_doc(compaction)"), ok,
+               "get_doc(compaction) at %s is preceded by is_deleted%s (deleted => skipped)" % (use.loc(), " at " + g.loc() if g else " further down the call chain") if ok else
+               "get_doc(compaction) at %s is not guarded by an is_deleted test on the same document: deleted documents can be returned / copied"
+               % use.loc(), use.loc())
     for f, b, t, what in inst:
+        if what is None:
+            continue
         ctx.saw(f)
         use = Site(f, b)
         g = deleted_guard(P, f, use, t["args"][1]) if len(t["args"]) > 1 else None
@@ -202,7 +251,22 @@ def r04c(ctx, P):
                "%s at %s is preceded by is_deleted at %s (deleted => skipped)" % (what, use.loc(), g.loc()) if g else
                "%s at %s is not guarded by an is_deleted test on the same document: deleted documents can be returned / copied"
                % (what, use.loc()), use.loc())
-    ctx.floor(rid, len(inst), 4, "document-enumerating routines (accept closure, scan_segment, rescore_hits, compaction)")
+    # fail closed per ENTRY POINT, not per site: each of the four routines must reach at least one checked instance (in itself, a
+    # closure of its own, or a callee) — helpers shared between them lower the number of sites, not of routines covered
+    roots = ((N.READER + "::search_segment", "the top-k accept closure"), (N.READER + "::scan_segment", "the full scan"),
+             (N.READER + "::rescore_hits", "rescoring"), (N.INDEX + "::compact", "compaction"))
+    covered = 0
+    inst_fns = {f.path for f, b, t, what in inst}
+    for rp, label in roots:
+        r = P.fn(rp)
+        if not ctx.anchor(rid, r, rp.rsplit("::", 2)[-2] + "::" + rp.rsplit("::", 1)[-1]):
+            continue
+        scope = {r.path} | {c.path for c in P.closures_of(r)}
+        scope |= {q for q in P.reach(r.path) if q in P.fns}
+        scope |= {c.path for q in list(scope) if q in P.fns for c in P.closures_of(P.fns[q])}
+        if scope & inst_fns:
+            covered += 1
+    ctx.floor(rid, covered, 4, "document-enumerating routines that reach a checked instance (accept closure, scan_segment, rescore_hits, compaction)")
     if ctx.config == "features":
         f = P.one("IndexReader::collect_vector_maps")
         if ctx.anchor(rid, f, "IndexReader::collect_vector_maps"):
@@ -215,9 +279,10 @@ def r04c(ctx, P):
 
 def r04d(ctx, P):
     rid = "R04.d"
-    ctx.rule(rid, "GUARD (upsert/delete fold): in IndexWriter::commit the match on a queued operation has an Add arm that removes the "
-                  "id from the live-document map (tombstoning the previous version) and inserts into the new-document map, and a "
-                  "Delete arm that removes the id from both maps; both arms record a tombstone under the `Some(previous address)` test")
+    ctx.rule(rid, "GUARD (upsert/delete fold): in IndexWriter::commit (private helpers inlined) every path from the Add arm of the match "
+                  "on a queued operation to the next iteration removes the id from the live-document map and inserts into the "
+                  "new-document map; every path from the Delete arm removes the id from both maps; a tombstone is recorded on the way "
+                  "(under the `Some(previous address)` test)")
     f = P.inlined(N.W + "::commit")
     if not ctx.anchor(rid, f, "IndexWriter::commit"):
         return
@@ -263,14 +328,41 @@ def r04d(ctx, P):
                         h = P.fn(x[3]["closure"])
                         out += effects_of(h, sorted(h.reachable()))
         return out
+    # the fold loop: the arm's effects are those on the way from the arm to the next iteration (an arm may share a tail with the
+    # other arm: `let id = match op {..}; if let Some(addr) = live.remove(id) {..}`)
+    from sa.rules.C25 import natural_loops
+    hdrs = [h for h, body in natural_loops(f) if b in body]
+    hdr = None
+    for h in hdrs:      # innermost = the header dominated by all the others
+        if all(f.dominates_block(o, h) for o in hdrs):
+            hdr = h
+    if not ctx.anchor(rid, hdr, "the match on PendingOp lies in a loop"):
+        return
+
+    def reach_avoiding(start, blocks):
+        seen_, st_ = set(), [start]
+        while st_:
+            x = st_.pop()
+            if x in seen_ or x in blocks:
+                continue
+            seen_.add(x)
+            if x == hdr:
+                continue
+            st_.extend(f.succ(x))
+        return seen_
     for v, tg in zip(t["values"], t["targets"]):
         name = names[v]
-        region = f.dominated_region(tg) | {tg}
-        calls = effects_of(f, sorted(region))
+        region = sorted(f.reachable_from(tg, stop=[hdr]) - {hdr})
+        per_block = {rb: effects_of(f, [rb]) for rb in region}
+        calls = [e for rb in region for e in per_block[rb]]
+
+        def must(pred):
+            blocks = {rb for rb in region if any(pred(c, ty) for c, ty in per_block[rb])}
+            return bool(blocks) and hdr not in reach_avoiding(tg, blocks)
         # the maps are recognised by their types: id -> address (live), id -> document (new segment), segment -> doc ids (tombstones)
-        rm_live = any(re.search(r"HashMap::<K, V, S(, A)?>::remove$", c) and "DocAddress" in ty for c, ty in calls)
-        ins_new = any(re.search(r"BTreeMap::<K, V(, A)?>::insert$", c) and "Document" in ty for c, ty in calls)
-        rm_new = any(re.search(r"BTreeMap::<K, V(, A)?>::remove$", c) and "Document" in ty for c, ty in calls)
+        rm_live = must(lambda c, ty: bool(re.search(r"HashMap::<K, V, S(, A)?>::remove$", c)) and "DocAddress" in ty)
+        ins_new = must(lambda c, ty: bool(re.search(r"BTreeMap::<K, V(, A)?>::insert$", c)) and "Document" in ty)
+        rm_new = must(lambda c, ty: bool(re.search(r"BTreeMap::<K, V(, A)?>::remove$", c)) and "Document" in ty)
         tomb = any(c.endswith("Vec::<T, A>::push") and ("Vec<u32>" in ty or "DocId" in ty) for c, ty in calls) and \
             any(c.endswith("::entry") and "Vec<u32>" in ty for c, ty in calls)
         if name == "Add":
